@@ -54,6 +54,20 @@ Theorem C13_pn53x_readreg_total : forall d with_status nregs payload,
 Proof. exact pn53x_readreg_total. Qed.
 Print Assumptions C13_pn53x_readreg_total.
 
+(* register VALUES on the register-programmed paths: any CommIRq / DivIRq / FIFOLevel / FIFOData values *)
+Theorem C13_pn53x_tt3_poll_total : forall commirq divirq level (fifo : list Z), Z.of_nat (List.length fifo) = level ->
+  poll_allowed (tt3_poll commirq divirq level fifo) = true.
+Proof. exact tt3_poll_total. Qed.
+Print Assumptions C13_pn53x_tt3_poll_total.
+Theorem C13_pn53x_tt1_fifo_total : forall level crc_ok, 0 <= level < 256 ->
+  DrvMap.allowed (tt1_fifo_outcome level crc_ok) = true.
+Proof. exact tt1_fifo_total. Qed.
+Print Assumptions C13_pn53x_tt1_fifo_total.
+Theorem C13_pn53x_tt1_fifo_data : forall level crc_ok,
+  tt1_fifo_outcome level crc_ok = OData -> 3 <= level <= 64 /\ crc_ok = true.
+Proof. exact tt1_fifo_data. Qed.
+Print Assumptions C13_pn53x_tt1_fifo_data.
+
 Theorem C13_pn53x_errframe_total : forall d, DrvMap.allowed (pn53x_errframe_outcome d) = true.
 Proof. exact pn53x_errframe_total. Qed.
 Print Assumptions C13_pn53x_errframe_total.
